@@ -1201,7 +1201,14 @@ fn scenario(seed: u64, preset: &str, n: usize) -> Result<Transcript, String> {
                 _ => cmd(&["HKEYS", &h])?,
             }
         } else {
-            match wl.gen_range(0, 12) {
+            match wl.gen_range(0, 16) {
+                // the absolute-time API: replies and deadlines that contain the executor's start
+                // epoch, so an epoch taken from the wall clock (instead of the simulation's
+                // configuration) shows in the history
+                12 => cmd(&["PEXPIRETIME", &k])?,
+                13 => cmd(&["EXPIRETIME", &k])?,
+                14 => cmd(&["PEXPIREAT", &k, &format!("{}", time + 1 + wl.gen_range(0, 300))])?,
+                15 => cmd(&["SET", &k, &format!("a{}", i), "PXAT", &format!("{}", time + 1 + wl.gen_range(0, 300))])?,
                 0..=2 => cmd(&["SET", &k, &format!("v{}", i)])?,
                 3..=4 => cmd(&["GET", &k])?,
                 5 => cmd(&["INCR", &format!("n{}", wl.gen_range(0, 3))])?,
